@@ -94,7 +94,11 @@ class ProbeModule:
         out.append('#include "trapstub.h"')
         out.append("static %sInstance inst;" % mod)
         out += self.decls
+        out += getattr(self, "extra_text", [])
         for p in self.probes:
+            if getattr(p, "harness_override", None):
+                out.append(p.harness_override)
+                continue
             out.append("void h_%s(void) {" % p.name)
             for i, t in enumerate(p.params):
                 out.append("  ND(%s, a%d);" % (CT[t], i))
